@@ -607,6 +607,16 @@ class TableEngine:
         if "x" in op and self._form(rng) == "s":
             op["xform"] = "s"
         op["obs"] = self._obs_plan(rng, tv)
+        # the row the op is aimed at is always read back through the cached path
+        # (get_row / get_row_values), wherever it is: a divergence is then attributed to
+        # the op that caused it even when the row lies outside the observation window
+        ty = op.get("y")
+        if ty is None and isinstance(op.get("c"), dict):
+            ty = op["c"].get("y")
+        if isinstance(op.get("to"), dict):
+            ty = op["to"].get("y", ty)
+        if ty is not None and op["obs"].get("level") != "none":
+            op["obs"]["target_row"] = ty
         if self.prop == "C10" and self.twin is not None and rng.chance(0.5, "on"):
             op["on"] = "twin"
         if name in ("live_row_rep", "live_cell_rep"):
